@@ -42,8 +42,10 @@ func (h *transportHandler) HandleLinkEstablished(lnk link.Link) {
 	h.c.bcast.HoldLockMaybeAsync(func(broadcast func(), getWaitCh func() <-chan struct{}) {
 		defer verifOpDone()
 		defer verifOpEvent("est", lnk)
+		// the handler of a previous execution may get past Await: it selects at
+		// random when the result and the cancellation are both ready.
 		execCtx := h.c.execCtx
-		if execCtx == nil {
+		if execCtx == nil || h.c.tptHandler != h {
 			le.Warn("link established while transport exited, closing link")
 			go lnk.Close()
 			return
